@@ -6,7 +6,7 @@ ASSUMPTIONS = ['sequential client; a durability point is a successful mutating R
 
 def run(ctx, ps, gen_bad):
     if ctx.quick:
-        wl = [('unstablemix', 30, 3000, True, 300), ('unstablemix', 24, 3000, False, 150),
+        wl = [('unstablemix', 30, 3000, True, 200), ('unstablemix', 24, 3000, False, 100),
               # unstable data pending, a request too large for the journal, then COMMIT (defect fixed in b50158b)
               ('refused', 0, 3000, True, 60, ctx.seed * 4 + 3)]
     else:
